@@ -1,5 +1,6 @@
 SPECIFICATION Spec
 CONSTANTS NC = 2 NI = 2 Delays = {1} PassTimeouts = {} Filters = {"all"}
-          Nesting = FALSE ReAdds = 0 ExtFut = FALSE ReapOwnOnly = TRUE LateCancel = FALSE
+          Nesting = FALSE ReAdds = 0 ExtFut = 0 ReapOwnOnly = TRUE LateCancel = FALSE
           HScripts = {} CoHandlers = FALSE ClaimFirst = TRUE
+          TMShutdown = FALSE ShutGuard = FALSE NFut = 3 FutLoop = "all"
 INVARIANT NoTimeoutAfterClaim
